@@ -3,12 +3,17 @@ package harness
 // C19: the same genesis bytes and the same blocks (the same signed tx bytes, the same block times) are fed to three
 // replicas of the real application: two in-memory ones (Go randomises the start of every map iteration, so two instances
 // in one process already iterate differently) and one on an on-disk goleveldb that is CLOSED AND REOPENED after every
-// committed block. App hashes, tx result codes and gas must agree at every height.
+// committed block. A fourth replica lives only on disk: after the common set-up every one of its blocks is executed by a
+// FRESH OS PROCESS (this test binary re-executed in mode c19child) that opens the database, runs the block, commits and
+// exits, so nothing it computes can depend on memory left behind by earlier blocks, rejected txs or queries.
+// App hashes, tx result codes and gas must agree at every height.
 
 import (
 	"encoding/hex"
 	"encoding/json"
 	"math/rand"
+	"os"
+	"os/exec"
 	"testing"
 	"time"
 
@@ -25,7 +30,50 @@ import (
 	epochstypes "github.com/elys-network/elys/x/epochs/types"
 )
 
-func init() { modes["c19"] = runC19 }
+func init() { modes["c19"] = runC19; modes["c19child"] = runC19Child }
+
+type c19Block struct {
+	PrevTime int64    `json:"prevTime"` // unix nanoseconds of the previous block
+	Dt       int64    `json:"dt"`       // nanoseconds
+	Txs      []string `json:"txs"`      // hex
+}
+
+// runC19Child executes one block on the database in VERIF_C19_DIR in this (fresh) process and reports the result.
+func runC19Child(t *testing.T, seed int64, n int, out *Out) {
+	db, err := dbm.NewGoLevelDB("c19", os.Getenv("VERIF_C19_DIR"), nil)
+	if err != nil {
+		t.Fatalf("child leveldb: %v", err)
+	}
+	app := c19NewApp(t, db, os.Getenv("VERIF_C19_HOME"))
+	var blk c19Block
+	bz, err := os.ReadFile(os.Getenv("VERIF_C19_BLOCK"))
+	if err != nil || json.Unmarshal(bz, &blk) != nil {
+		t.Fatalf("child block file: %v", err)
+	}
+	var raw [][]byte
+	for _, x := range blk.Txs {
+		b, _ := hex.DecodeString(x)
+		raw = append(raw, b)
+	}
+	w := &World{T: t, App: app, Time: time.Unix(0, blk.PrevTime).UTC()}
+	res := w.Deliver(time.Duration(blk.Dt), raw)
+	line := J{"t": "c19.child", "id": 0, "hash": hex.EncodeToString(res.AppHash), "height": res.Height}
+	codes, gas := []uint32{}, []int64{}
+	for _, tr := range res.Txs {
+		codes = append(codes, tr.Code)
+		gas = append(gas, tr.Gas)
+	}
+	line["codes"], line["gas"] = codes, gas
+	if res.Err != nil {
+		line["err"] = res.Err.Error()
+	}
+	if res.Panicked {
+		line["err"] = "panic: " + res.PanicText
+	}
+	out.Line(line)
+	_ = app.Close()
+	_ = db.Close()
+}
 
 func c19NewApp(t *testing.T, db dbm.DB, home string) *simapp.ElysApp {
 	appOptions := make(simtestutil.AppOptionsMap, 0)
@@ -42,7 +90,12 @@ func runC19(t *testing.T, seed int64, n int, out *Out) {
 	if err != nil {
 		t.Fatalf("leveldb: %v", err)
 	}
-	apps := []*simapp.ElysApp{c19NewApp(t, dbm.NewMemDB(), t.TempDir()), c19NewApp(t, dbm.NewMemDB(), t.TempDir()), c19NewApp(t, disk, home)}
+	dir4, home4 := t.TempDir(), t.TempDir()
+	disk4, err := dbm.NewGoLevelDB("c19", dir4, nil)
+	if err != nil {
+		t.Fatalf("leveldb: %v", err)
+	}
+	apps := []*simapp.ElysApp{c19NewApp(t, dbm.NewMemDB(), t.TempDir()), c19NewApp(t, dbm.NewMemDB(), t.TempDir()), c19NewApp(t, disk, home), c19NewApp(t, disk4, home4)}
 	gs, valSet, _, _ := simapp.GenesisStateWithValSet(apps[0])
 	stateBytes, err := json.MarshalIndent(gs, "", " ")
 	if err != nil {
@@ -77,7 +130,8 @@ func runC19(t *testing.T, seed int64, n int, out *Out) {
 			}
 		})
 	}
-	out.Line(J{"t": "c19.begin", "id": 0, "replicas": []string{"mem-a", "mem-b", "disk-restarted-every-block"}})
+	out.Line(J{"t": "c19.begin", "id": 0, "replicas": []string{"mem-a", "mem-b", "disk-restarted-every-block", "disk-fresh-process-every-block"}})
+	childRuns := 0
 	h := &Hist{w: worlds[0], std: stds[0], r: rand.New(rand.NewSource(seed))}
 	restarts := 0
 	for b := 0; b < n; b++ {
@@ -115,6 +169,50 @@ func runC19(t *testing.T, seed int64, n int, out *Out) {
 		}
 		reps := make([]rep, len(worlds))
 		for i, w := range worlds {
+			if i == 3 && b > 0 {
+				// from block 1 on the fourth replica is run by a fresh process per block
+				blk := c19Block{PrevTime: w.Time.UnixNano(), Dt: int64(dt)}
+				for _, x := range raw {
+					blk.Txs = append(blk.Txs, hex.EncodeToString(x))
+				}
+				w.Time = w.Time.Add(dt)
+				bz, _ := json.Marshal(blk)
+				bf, of := dir4+".block.json", dir4+".out.jsonl"
+				_ = os.WriteFile(bf, bz, 0o644)
+				_ = os.Remove(of)
+				cmd := exec.Command(os.Args[0], "-test.run", "^TestRun$")
+				cmd.Env = append(os.Environ(), "VERIF_MODE=c19child", "VERIF_OUT="+of, "VERIF_C19_DIR="+dir4, "VERIF_C19_HOME="+home4, "VERIF_C19_BLOCK="+bf)
+				cout, cerr := cmd.CombinedOutput()
+				var cl struct {
+					Hash  string   `json:"hash"`
+					Codes []uint32 `json:"codes"`
+					Gas   []int64  `json:"gas"`
+					Err   string   `json:"err"`
+				}
+				ob, rerr := os.ReadFile(of)
+				first := ob
+				for k, c := range ob {
+					if c == '\n' {
+						first = ob[:k]
+						break
+					}
+				}
+				if cerr != nil || rerr != nil || json.Unmarshal(first, &cl) != nil {
+					tail := string(cout)
+					if len(tail) > 300 {
+						tail = tail[len(tail)-300:]
+					}
+					reps[i].Err = "child process failed: " + tail
+					stats["child-failed"]++
+				} else {
+					reps[i].Hash, reps[i].Err = cl.Hash, cl.Err
+					if len(cl.Codes) > 0 {
+						reps[i].Codes, reps[i].Gas = cl.Codes, cl.Gas
+					}
+				}
+				childRuns++
+				continue
+			}
 			res := w.Deliver(dt, raw)
 			reps[i].Hash = hex.EncodeToString(res.AppHash)
 			for _, tr := range res.Txs {
@@ -127,6 +225,11 @@ func runC19(t *testing.T, seed int64, n int, out *Out) {
 			if res.Panicked {
 				reps[i].Err = "panic: " + res.PanicText
 			}
+		}
+		if b == 0 {
+			// hand the fourth replica over to child processes: everything it has is on disk now
+			_ = worlds[3].App.Close()
+			_ = disk4.Close()
 		}
 		// restart the disk replica from its database
 		commitBefore := hex.EncodeToString(worlds[2].App.LastCommitID().Hash)
@@ -153,6 +256,7 @@ func runC19(t *testing.T, seed int64, n int, out *Out) {
 		}
 	}
 	stats["restarts"] = restarts
+	stats["child-process-blocks"] = childRuns
 	out.Line(J{"t": "stats", "dist": stats})
 	_ = disk.Close()
 }
